@@ -172,7 +172,9 @@ def c07(run, args):
         for pre in (0, 2):
             ops = [{"op": "add", "mb": 0, "meta": 1, "size": 700} for _ in range(pre)]
             ops += [{"op": "addfault", "mb": 0, "meta": 1, "size": size, "limit": limit}, {"op": "probe"},
-                    {"op": "add", "mb": 0, "meta": 1, "size": 700}, {"op": "probe"}, {"op": "addfault", "mb": 1, "meta": 1, "size": size, "limit": limit}, {"op": "probe"}]
+                    {"op": "add", "mb": 0, "meta": 1, "size": 700}, {"op": "probe"}, {"op": "addfault", "mb": 1, "meta": 1, "size": size, "limit": limit}, {"op": "probe"},
+                    # ... and the mailboxes are listed while no further file can be opened (RLIMIT_NOFILE = 0)
+                    {"op": "listfault", "mb": 0}, {"op": "listfault", "mb": 1}, {"op": "listfault", "mb": 2}, {"op": "probe"}]
             beh.append({"id": "fault-%d-%d" % (k, pre), "store": "file", "cap": 0, "maxkb": 0, "names": ["alpha", "beta", "gamma"], "ops": ops})
     run.cov["samples"] = [bfs[len(bfs) // 2], sim[0][:12]] if bfs and sim else []
     replay_and_validate(run, vh, beh, "c07", "C07 ordered-mailbox model")
@@ -610,6 +612,17 @@ def c09(run, args):
                                "threads": [[{"op": o, "mb": 0, "meta": 1, "size": 600} for _ in range(cyc) for o in ("purge", "add")],
                                            [{"op": o, "mb": 1, "meta": 1, "size": 600} for _ in range(cyc) for o in ("add", "purge")]],
                                "repeat": 150 if quick else 400})
+        # walks: one client walks the whole store over and over while two others keep writing to the mailboxes (which stay
+        # non-empty throughout): every walk must be shown every one of them (LinTrace: need)
+        for k in range(4 if quick else 12):
+            st = ["file", "mem"][k % 2]
+            wr = lambda m: [{"op": o, "mb": m, "meta": 1, "size": 600, "id": 1 + j % 2} for j in range(5) for o in ("seen", "add")]
+            behaviours.append({"id": "walk-%d-%s" % (k, st), "store": st, "cap": 0, "maxkb": 0, "names": sets[k % len(sets)], "pre": pre,
+                               "threads": [[{"op": "visit", "mb": 0, "id": 0} for _ in range(8)], wr(0), wr(1)], "repeat": 40 if quick else 120})
+        # poison: one mailbox's index is damaged and a walk of the store has run into it; its bucket mate is then used
+        for k in range(2 if quick else 6):
+            behaviours.append({"id": "poison-%d" % k, "store": "file", "cap": 0, "maxkb": 0, "names": bucket_pair(3, rng) + ["other%d" % k], "pre": [], "threads": [],
+                               "poison": True, "repeat": 3})
         # bursts: 8 deliveries at once to a mailbox that does not exist yet, many times (judged on the outcome, no search needed)
         for k in range(4):
             st = ["mem", "file"][k % 2]
